@@ -146,7 +146,7 @@ func TestVerifC12_ed25519scalar(t *testing.T) {
 		rb := bf.LE(rv, 32)
 		rv := rv
 		f32.CheckBin(r, bf.BinOp{Name: "calculateS", NoAlias: true,
-			Do: func(z, x, y bf.Elem) { calculateS(z.(*c12Buf).b, rb, x.(*c12Buf).b, y.(*c12Buf).b) },
+			Do:  func(z, x, y bf.Elem) { calculateS(z.(*c12Buf).b, rb, x.(*c12Buf).b, y.(*c12Buf).b) },
 			Ref: func(out, x, y, p *big.Int) bool { out.Mul(x, y).Add(out, rv).Mod(out, p); return true }, Canon: true}, key, key, ri == 0)
 	}
 	// isLessThan(x, order) on every 256-bit element
